@@ -4,7 +4,7 @@
     EscapeTop.v (get_matches_with / do_parse / parse_top). *)
 From ClapModel Require Import Base.Bytes Base.Machine Base.Utf8 Lex.OsStrExtModel.
 From ClapModel Require Import Parse.Cmd Parse.Build Parse.Valid Parse.Matcher Parse.Errors Parse.Validator Parse.Parser.
-From ClapModel Require Import ParseProofs.Totality ParseProofs.Escape ParseProofs.EscapeWalk ParseProofs.EscapeStore ParseProofs.EscapeTop.
+From ClapModel Require Import ParseProofs.Totality ParseProofs.Dispatch ParseProofs.Escape ParseProofs.EscapeWalk ParseProofs.EscapeStore ParseProofs.EscapeLevel ParseProofs.EscapeChain ParseProofs.EscapeTop.
 From Coq Require Import ZArith.
 From RecordUpdate Require Import RecordSet.
 Import RecordSetNotations.
@@ -207,32 +207,63 @@ Proof. exact (fun c a t H => match H with or_introl H1 => tail_form_ddt c a t H1
 Print Assumptions C05_tail_form_verbatim.
 
 (** (3), one level ([get_matches_with] = loop + [resolve_pending] + [add_env] + [add_defaults] +
-    [validate]).  Class [sink_from c 1 a]: after the escape every token goes to the multi-valued,
-    unterminated positional [a] -- for every value of the positional counter ([last] positional /
-    [allow_missing_positional]) or because the counter cannot move ([sticky]).  A successful parse
-    of [pre ++ -- :: t], [t] non-empty, ended its loop with [LDone] (no token of [t] dispatched
-    anything), kept the recorded subcommand of the initial state, and the final entry of [a] has
-    [t] (stored form) as the suffix of its last value group -- unless [pre] itself selected a
-    subcommand / external subcommand, which then receives [-- :: t] unread. *)
+    [validate]).  A successful parse of [pre ++ -- :: t], [t] non-empty, either consumed the [--] at
+    this level or [pre] itself selected a subcommand / external subcommand, which then receives
+    [-- :: t] unread.  "Consumed" is spelled out for two classes of levels:
+    [consumed_sink] -- class [sink_from c 1 a]: after the escape every token goes to the multi-valued,
+    unterminated positional [a], for every value of the positional counter ([last] positional /
+    [allow_missing_positional]) or because the counter cannot move ([sticky]): the loop ended with
+    [LDone] (no token of [t] dispatched anything), the recorded subcommand is that of the initial
+    state, and the final entry of [a] has [t] (stored form) as the suffix of its last value group;
+    [consumed_chain] -- class [chainc c]: single-valued positionals followed by a multi-valued one, no
+    terminators, no [last]/[allow_missing_positional]: same, and the tokens are distributed in order,
+    one to each single-valued positional from some index [pc] on, all the rest to the multi-valued one
+    ([chain_filled]; [x] is [[]], or [[--]] when [trailing_var_arg] had switched the loop to trailing
+    mode before, so that the [--] itself is a value). *)
 Theorem C05_level_tail_verbatim : forall c,
   lvl c -> lvl_store c -> (forall a, In a (c_args c) -> a_hyphen a = false) ->
   (forall vaf, possible_subcommand c dashdash vaf = None) ->
   forall f pre t st0 st',
   t <> [] -> mt_pending (mt st0) = None ->
   get_matches_with (S f) c (pre ++ dashdash :: t) st0 = ROk st' ->
-  (forall a, sink_from c 1 a ->
-    exists st1 e gs early' t',
-      parse_loop c (pre ++ dashdash :: t) ls0 st0 = ROk (LDone st1) /\
-      mt_sub (mt st') = mt_sub (mt st0) /\
-      get_entry (a_id a) st' = Some e /\ m_raw e = gs ++ [early' ++ t'] /\ m_source e = Some SCmdLine /\
-      tail_form c a t = Some t')
+  (consumed_sink c t st0 st' (parse_loop c (pre ++ dashdash :: t) ls0 st0) /\
+   consumed_chain c t st0 st' (parse_loop c (pre ++ dashdash :: t) ls0 st0))
   \/ (exists n k v st1 r, parse_loop c (pre ++ dashdash :: t) ls0 st0 = ROk (LSub n k v st1 (r ++ dashdash :: t)))
   \/ (exists tk r st1, parse_loop c (pre ++ dashdash :: t) ls0 st0 = ROk (LExternal tk (r ++ dashdash :: t) st1)).
 Proof. exact level_tail_verbatim. Qed.
 Print Assumptions C05_level_tail_verbatim.
 
+(** the two definitions, pinned by unfolding *)
+Theorem C05_consumed_sink_def : forall c t st0 st' lr,
+  consumed_sink c t st0 st' lr <->
+  (forall a, sink_from c 1 a ->
+    exists st1 e gs early' t',
+      lr = ROk (LDone st1) /\ mt_sub (mt st') = mt_sub (mt st0) /\
+      get_entry (a_id a) st' = Some e /\ m_raw e = gs ++ [early' ++ t'] /\ m_source e = Some SCmdLine /\
+      tail_form c a t = Some t').
+Proof. exact (fun c t st0 st' lr => conj (fun H => H) (fun H => H)). Qed.
+Print Assumptions C05_consumed_sink_def.
+
+Theorem C05_consumed_chain_def : forall c t st0 st' lr,
+  consumed_chain c t st0 st' lr <->
+  (chainc c = true ->
+    exists st1 x pc,
+      lr = ROk (LDone st1) /\ mt_sub (mt st') = mt_sub (mt st0) /\
+      chain_filled c (fun y => get_entry y st') pc (x ++ t)).
+Proof. exact (fun c t st0 st' lr => conj (fun H => H) (fun H => H)). Qed.
+Print Assumptions C05_consumed_chain_def.
+
+(** the loop-level core of the chain class: in trailing mode, after the loop and [resolve_pending] *)
+Theorem C05_chain_run : forall c, lvl c -> lvl_store c -> chainc c = true ->
+  forall t ls st s1 s2, t <> [] -> l_trailing ls = true -> TV c st ->
+  parse_loop c t ls st = ROk (LDone s1) -> resolve_pending c s1 = ROk s2 ->
+  chain_filled c (fun y => get_entry y s2) (l_pos ls) t.
+Proof. exact chain_run. Qed.
+Print Assumptions C05_chain_run.
+
 (** (4), one level: two successful parses of the same prefix with tails [t1], [t2] (either may be
-    empty: "without the tail") agree on every command-line entry outside [touched c a]. *)
+    empty: "without the tail") agree on every command-line entry outside [touched c a] (sink class) /
+    outside [touched] of every positional (chain class). *)
 Theorem C05_level_prefix_entries : forall c,
   lvl c -> lvl_store c -> (forall a, In a (c_args c) -> a_hyphen a = false) ->
   (forall vaf, possible_subcommand c dashdash vaf = None) ->
@@ -240,13 +271,8 @@ Theorem C05_level_prefix_entries : forall c,
   mt_pending (mt st0) = None ->
   get_matches_with (S f) c (pre ++ dashdash :: t1) st0 = ROk s1 ->
   get_matches_with (S f) c (pre ++ dashdash :: t2) st0 = ROk s2 ->
-  (forall a, sink_from c 1 a ->
-    exists l1 l2,
-      parse_loop c (pre ++ dashdash :: t1) ls0 st0 = ROk (LDone l1) /\
-      parse_loop c (pre ++ dashdash :: t2) ls0 st0 = ROk (LDone l2) /\
-      mt_sub (mt s1) = mt_sub (mt st0) /\ mt_sub (mt s2) = mt_sub (mt st0) /\
-      forall y e, touched c a y = false -> find_group c y = None ->
-                  get_entry y s1 = Some e -> m_source e = Some SCmdLine -> get_entry y s2 = Some e)
+  (same_sink c st0 s1 s2 (parse_loop c (pre ++ dashdash :: t1) ls0 st0) (parse_loop c (pre ++ dashdash :: t2) ls0 st0) /\
+   same_chain c st0 s1 s2 (parse_loop c (pre ++ dashdash :: t1) ls0 st0) (parse_loop c (pre ++ dashdash :: t2) ls0 st0))
   \/ (exists n k v st1 r,
         parse_loop c (pre ++ dashdash :: t1) ls0 st0 = ROk (LSub n k v st1 (r ++ dashdash :: t1)) /\
         parse_loop c (pre ++ dashdash :: t2) ls0 st0 = ROk (LSub n k v st1 (r ++ dashdash :: t2)))
@@ -255,6 +281,28 @@ Theorem C05_level_prefix_entries : forall c,
         parse_loop c (pre ++ dashdash :: t2) ls0 st0 = ROk (LExternal tk (r ++ dashdash :: t2) st1)).
 Proof. exact level_prefix_entries. Qed.
 Print Assumptions C05_level_prefix_entries.
+
+Theorem C05_same_sink_def : forall c st0 s1 s2 lr1 lr2,
+  same_sink c st0 s1 s2 lr1 lr2 <->
+  (forall a, sink_from c 1 a ->
+    exists l1 l2,
+      lr1 = ROk (LDone l1) /\ lr2 = ROk (LDone l2) /\
+      mt_sub (mt s1) = mt_sub (mt st0) /\ mt_sub (mt s2) = mt_sub (mt st0) /\
+      forall y e, touched c a y = false -> find_group c y = None ->
+                  get_entry y s1 = Some e -> m_source e = Some SCmdLine -> get_entry y s2 = Some e).
+Proof. exact (fun c st0 s1 s2 lr1 lr2 => conj (fun H => H) (fun H => H)). Qed.
+Print Assumptions C05_same_sink_def.
+
+Theorem C05_same_chain_def : forall c st0 s1 s2 lr1 lr2,
+  same_chain c st0 s1 s2 lr1 lr2 <->
+  (chainc c = true ->
+    exists l1 l2,
+      lr1 = ROk (LDone l1) /\ lr2 = ROk (LDone l2) /\
+      mt_sub (mt s1) = mt_sub (mt st0) /\ mt_sub (mt s2) = mt_sub (mt st0) /\
+      forall y e, (forall j a', get_pos c j = Some a' -> touched c a' y = false) -> find_group c y = None ->
+                  get_entry y s1 = Some e -> m_source e = Some SCmdLine -> get_entry y s2 = Some e).
+Proof. exact (fun c st0 s1 s2 lr1 lr2 => conj (fun H => H) (fun H => H)). Qed.
+Print Assumptions C05_same_chain_def.
 
 (** (3)/(4) over the recursion into subcommands, for trees all of whose levels are built, pass the
     validity gate, have no [ignore_errors], no hyphen-accepting argument and no subcommand named
@@ -321,3 +369,81 @@ Theorem C05_prefix_unrestricted_refuted : exists c0 pre t m1 m2 y,
   fm_get y (ms_args m2) <> None /\ fm_get y (ms_args m1) = None.
 Proof. exact prefix_unrestricted_refuted. Qed.
 Print Assumptions C05_prefix_unrestricted_refuted.
+
+(** * The predicates used above, pinned by their unfolding (so that a change of a definition in a
+    proof file shows up as a changed statement) *)
+Theorem C05_sink_from_def : forall c pc0 a,
+  sink_from c pc0 a <-> ((forall pc, sink_arg c pc = Some a) \/ (sticky c = true /\ sink_arg c pc0 = Some a)).
+Proof. exact (fun c pc0 a => conj (fun H => H) (fun H => H)). Qed.
+Print Assumptions C05_sink_from_def.
+
+Theorem C05_tail_form_def : forall c a t,
+  tail_form c a t = if is_set s_dont_delimit_trailing c then Some t else delimit c a t None.
+Proof. exact (fun c a t => eq_refl). Qed.
+Print Assumptions C05_tail_form_def.
+
+Theorem C05_chain_filled_def : forall c get pc t,
+  chain_filled c get pc t <->
+  ((exists a e gs early t', get_pos c pc = Some a /\ a_multiple_values a = true /\ t <> [] /\
+      get (a_id a) = Some e /\ m_raw e = gs ++ [early ++ t'] /\ tail_form c a t = Some t')
+   \/ (exists a tok e gs t', t = [tok] /\ get_pos c pc = Some a /\ a_is_multiple a = false /\
+         get (a_id a) = Some e /\ m_raw e = gs ++ [t'] /\ tail_form c a [tok] = Some t')
+   \/ (exists a tok rest e gs t', t = tok :: rest /\ rest <> [] /\ get_pos c pc = Some a /\ a_is_multiple a = false /\
+         get (a_id a) = Some e /\ m_raw e = gs ++ [t'] /\ tail_form c a [tok] = Some t' /\
+         chain_filled c get (pc + 1) rest)).
+Proof. exact chain_filled_def. Qed.
+Print Assumptions C05_chain_filled_def.
+
+Theorem C05_delivered_def : forall f c t m,
+  delivered (S f) c t m <->
+  (((forall a, sink_from c 1 a ->
+       ms_sub m = None /\
+       exists e gs early' t', fm_get (a_id a) (ms_args m) = Some e /\ m_raw e = gs ++ [early' ++ t']
+                              /\ m_source e = Some SCmdLine /\ tail_form c a t = Some t')
+    /\ (chainc c = true ->
+        ms_sub m = None /\ exists x pc, chain_filled c (fun y => fm_get y (ms_args m)) pc (x ++ t)))
+   \/ (exists name sc sm, build_subcommand c name = Some sc /\ ms_sub m = Some (c_name sc, sm) /\ delivered f sc t sm)
+   \/ (exists name vals, ms_sub m = Some (name, Matches [(ext_id, ext_marg (vals ++ dashdash :: t))] None))).
+Proof. exact (fun f c t m => conj (fun H => H) (fun H => H)). Qed.
+Print Assumptions C05_delivered_def.
+
+Theorem C05_prefix_same_def : forall f c m1 m2,
+  prefix_same (S f) c m1 m2 <->
+  (((forall a, sink_from c 1 a ->
+       ms_sub m1 = None /\ ms_sub m2 = None /\
+       forall y e, touched c a y = false -> find_group c y = None ->
+                   fm_get y (ms_args m1) = Some e -> m_source e = Some SCmdLine -> fm_get y (ms_args m2) = Some e)
+    /\ (chainc c = true ->
+        ms_sub m1 = None /\ ms_sub m2 = None /\
+        forall y e, (forall j a', get_pos c j = Some a' -> touched c a' y = false) -> find_group c y = None ->
+                    fm_get y (ms_args m1) = Some e -> m_source e = Some SCmdLine -> fm_get y (ms_args m2) = Some e))
+   \/ (exists name sc sm1 sm2, build_subcommand c name = Some sc /\ ms_sub m1 = Some (c_name sc, sm1)
+                               /\ ms_sub m2 = Some (c_name sc, sm2) /\ ms_args m1 = ms_args m2
+                               /\ prefix_same f sc sm1 sm2)
+   \/ (exists name vals t1 t2,
+         ms_sub m1 = Some (name, Matches [(ext_id, ext_marg (vals ++ dashdash :: t1))] None) /\
+         ms_sub m2 = Some (name, Matches [(ext_id, ext_marg (vals ++ dashdash :: t2))] None) /\
+         ms_args m1 = ms_args m2)).
+Proof. exact (fun f c m1 m2 => conj (fun H => H) (fun H => H)). Qed.
+Print Assumptions C05_prefix_same_def.
+
+Theorem C05_esc_class_def : forall c0,
+  esc_class c0 = plain c0 && valid c0 && esc_okb (top_fuel c0) (build_self c0)
+                 && globals_free (build_recursive (top_fuel c0) c0).
+Proof. exact (fun c0 => eq_refl). Qed.
+Print Assumptions C05_esc_class_def.
+
+Theorem C05_esc_okb_def : forall f c,
+  esc_okb (S f) c =
+  negb (is_set s_ignore_errors c) && forallb (fun a => negb (a_hyphen a)) (c_args c)
+  && negb (is_some (possible_subcommand c dashdash false)) && negb (is_some (possible_subcommand c dashdash true))
+  && forallb (fun s => match build_subcommand c (c_name s) with Some sc => esc_okb f sc | None => false end) (c_subs c).
+Proof. exact (fun f c => eq_refl). Qed.
+Print Assumptions C05_esc_okb_def.
+
+Theorem C05_TV_def : forall c st,
+  TV c st <-> (forall p, mt_pending (mt st) = Some p ->
+                 (forall a, find_arg c (p_id p) = Some a -> a_takes_value a = true)
+                 /\ (forall k, p_trailing_idx p = Some k -> k <= N.of_nat (length (p_raw p)))).
+Proof. exact (fun c st => conj (fun H => H) (fun H => H)). Qed.
+Print Assumptions C05_TV_def.
